@@ -1,4 +1,22 @@
 """C02 (step clauses), C03, C04 (intents), C15: open single replica (spec/SerfReplica.tla)."""
+PROPS = ["C02", "C03", "C04", "C15"]
+# id: (level, what the check establishes, trusted base / assumptions, technique, DESIGN.md section)
+CLAIMS = {
+    'C03': (
+        'model_checking',
+        'TLC checks the C03 monitors (self listed alive while not leaving; every leave/force-leave/prune claim or state-sync left-entry about the local node newer than its join is answered by a queued join strictly newer than the claim) exhaustively on the open single-replica model and on every step of TLC-simulated input sequences executed on a real Serf node (messages in the real wire format through NotifyMsg / MergeRemoteState, force-leave and broadcastJoin through the API).',
+        'Trusts TLC, the overlay accessor that reads members/status times/lists/intent buffer under memberLock, the wire encoding mirror in the harness, and that memberlist never reports a leave for a node it has not reported joined.',
+        'TLA+ spec (SerfHandlers/SerfReplica) + TLC exhaustive check of the monitors; TLC-simulated input sequences replayed on a real quiet Serf node; TLC trace validation of every step with property monitors on observed state',
+        '5 C03',
+    ),
+    'C15': (
+        'model_checking',
+        'TLC checks the C15 monitors (Stats() failed/left equal the counts in Members(), lists duplicate-free and status-consistent, reap removes exactly the expired failed/left members with one reap event each using the reconnect/tombstone base per list, pruned member gone) exhaustively on the model and on every step of simulated histories run on a real node whose reaper runs every 3ms with per-member expiry chosen through ReconnectTimeoutOverride.',
+        'Trusts TLC, the overlay accessor that reads members/status times/lists/intent buffer under memberLock, the wire encoding mirror in the harness, and that memberlist never reports a leave for a node it has not reported joined.',
+        'TLA+ spec (SerfHandlers/SerfReplica) + TLC exhaustive check of the monitors; TLC-simulated input sequences replayed on a real quiet Serf node; TLC trace validation of every step with property monitors on observed state',
+        '5 C15',
+    ),
+}
 import json
 import os
 
